@@ -251,7 +251,7 @@ func (v *Verifier) verifyFunc(cu *FuncUnit, con *Contract) (res *FuncResult) {
 		}
 	}()
 	for _, cl := range con.Clauses {
-		if cl.Kind == "order_only" {
+		if cl.Kind == "order_only" && !hasAnyProp(con.TaggedOnly, v.curProps) {
 			res.Notes = append(res.Notes, "order_only: only the map-iteration-order clauses of this contract are checked (C14)")
 			return res
 		}
